@@ -41,6 +41,8 @@ pub enum G {
     DelimitedBy(Box<G>, Box<G>, Box<G>),
     PaddedBy(Box<G>, Box<G>),
     Group(Vec<G>),
+    /// version 3: `group([g1, .., gn])`, the array form
+    GroupArr(Vec<G>),
     // choice / option / lookahead
     Or(Box<G>, Box<G>),
     Choice(Vec<G>),
@@ -77,6 +79,8 @@ pub enum G {
     Var(usize),
     Boxed(Box<G>),
     Pratt(PForm, Box<G>, Vec<POp>),
+    // version 3: token trees
+    NestedIn(Box<G>),
 }
 
 #[derive(Clone, Copy, Debug, PartialEq)]
@@ -120,10 +124,11 @@ pub enum IKind {
     WithCtx,
     Bytes,
     Io,
+    Tree,
 }
 
 impl IKind {
-    pub const ALL: [IKind; 12] = [
+    pub const ALL: [IKind; 13] = [
         IKind::Str,
         IKind::Slice,
         IKind::Array,
@@ -136,6 +141,7 @@ impl IKind {
         IKind::WithCtx,
         IKind::Bytes,
         IKind::Io,
+        IKind::Tree,
     ];
 
     pub fn name(self) -> &'static str {
@@ -152,6 +158,7 @@ impl IKind {
             IKind::WithCtx => "withctx",
             IKind::Bytes => "bytes",
             IKind::Io => "io",
+            IKind::Tree => "tree",
         }
     }
 
@@ -212,6 +219,87 @@ pub struct Case {
     pub input: Vec<u32>,
     /// `s..e` of every token, for the kinds with `IKind::spanned_input` (else empty)
     pub spans: Vec<(usize, usize)>,
+    /// the token trees of the `tree` kind (else empty; `input`/`spans` then hold the top-level tokens)
+    pub tree: Vec<STree>,
+}
+
+/// A token of the `tree` kind as written in the case file.
+#[derive(Clone, Debug, PartialEq)]
+pub enum TTree {
+    Leaf(u32),
+    /// `(G <id> (<tt> ...))`, id >= `GROUP_ID_MIN`
+    Group(u32, Vec<STree>),
+}
+
+/// `(<token> <s> <e>)`
+pub type STree = (TTree, usize, usize);
+
+/// Group ids of the `tree` kind start here (above every `char`).
+pub const GROUP_ID_MIN: u32 = 2_000_000;
+
+/// The wrappers of a history case.
+#[derive(Clone, Copy, Debug, PartialEq, Eq)]
+pub enum Wrapper {
+    Value,
+    Clone,
+    Ref,
+    Box,
+    Rc,
+    Boxed,
+    Either,
+    Cache,
+}
+
+impl Wrapper {
+    pub fn from_name(s: &str) -> Option<Wrapper> {
+        Some(match s {
+            "value" => Wrapper::Value,
+            "clone" => Wrapper::Clone,
+            "ref" => Wrapper::Ref,
+            "box" => Wrapper::Box,
+            "rc" => Wrapper::Rc,
+            "boxed" => Wrapper::Boxed,
+            "either" => Wrapper::Either,
+            "cache" => Wrapper::Cache,
+            _ => return None,
+        })
+    }
+}
+
+/// `(H <id> <ikind> <ekind> <wrapper> <grammar> (<input> ...))`
+#[derive(Clone, Debug)]
+pub struct HCase {
+    pub id: u64,
+    pub ikind: IKind,
+    pub ekind: EKind,
+    pub wrapper: Wrapper,
+    pub grammar: G,
+    pub inputs: Vec<Vec<u32>>,
+}
+
+/// `(T <id> <nthreads> <static-id> (<input> ...))`; tokens are chars
+#[derive(Clone, Debug)]
+pub struct TCase {
+    pub id: u64,
+    pub nthreads: usize,
+    pub static_id: usize,
+    pub inputs: Vec<Vec<u32>>,
+}
+
+/// What kind of line an s-expression is.
+#[derive(Clone, Copy, Debug, PartialEq, Eq)]
+pub enum LineKind {
+    Plain,
+    History,
+    Threads,
+}
+
+pub fn line_kind(s: &Sexp) -> LineKind {
+    match s.list().and_then(|l| l.first()).and_then(|h| h.atom()) {
+        Some("H") => LineKind::History,
+        Some("T") => LineKind::Threads,
+        _ => LineKind::Plain,
+    }
 }
 
 // ---------- parsing ----------
@@ -223,6 +311,8 @@ type R<T> = Option<T>;
 pub enum Tk {
     Char,
     Byte,
+    /// `tree`: a char (leaf) or a group id
+    Tree,
 }
 
 impl Tk {
@@ -230,13 +320,53 @@ impl Tk {
         match self {
             Tk::Char => char::from_u32(n).is_some(),
             Tk::Byte => n < 256,
+            Tk::Tree => char::from_u32(n).is_some() || n >= GROUP_ID_MIN,
         }
     }
 }
 
 /// The id of a syntactically well-formed line, even if the rest of the case is not understood.
 pub fn case_id(s: &Sexp) -> R<u64> {
-    s.list()?.first()?.nat()
+    match line_kind(s) {
+        LineKind::Plain => s.list()?.first()?.nat(),
+        LineKind::History | LineKind::Threads => s.list()?.get(1)?.nat(),
+    }
+}
+
+/// `(<ikind>, <ekind>)` of a history line (for routing), when both are known names.
+pub fn hcase_kinds(s: &Sexp) -> R<(IKind, EKind)> {
+    let l = s.list()?;
+    if l.len() != 7 {
+        return None;
+    }
+    Some((IKind::from_name(l[2].atom()?)?, EKind::from_name(l[3].atom()?)?))
+}
+
+pub fn parse_hcase(s: &Sexp) -> R<HCase> {
+    let l = s.list()?;
+    if l.len() != 7 || l[0].atom()? != "H" {
+        return None;
+    }
+    let id = l[1].nat()?;
+    let ikind = IKind::from_name(l[2].atom()?)?;
+    let ekind = EKind::from_name(l[3].atom()?)?;
+    let wrapper = Wrapper::from_name(l[4].atom()?)?;
+    let tk = if ikind.byte_tokens() { Tk::Byte } else { Tk::Char };
+    let grammar = parse_g(tk, &l[5])?;
+    let inputs = l[6].list()?.iter().map(|i| toks(tk, i)).collect::<R<Vec<_>>>()?;
+    Some(HCase { id, ikind, ekind, wrapper, grammar, inputs })
+}
+
+pub fn parse_tcase(s: &Sexp) -> R<TCase> {
+    let l = s.list()?;
+    if l.len() != 5 || l[0].atom()? != "T" {
+        return None;
+    }
+    let id = l[1].nat()?;
+    let nthreads = nat(&l[2])?;
+    let static_id = nat(&l[3])?;
+    let inputs = l[4].list()?.iter().map(|i| toks(Tk::Char, i)).collect::<R<Vec<_>>>()?;
+    Some(TCase { id, nthreads, static_id, inputs })
 }
 
 /// `(<ikind>, <ekind>)` of a case line (for routing), when both are known names.
@@ -261,9 +391,26 @@ pub fn parse_case(s: &Sexp) -> R<Case> {
         "check" => Mode::Check,
         _ => return None,
     };
-    let tk = if ikind.byte_tokens() { Tk::Byte } else { Tk::Char };
+    let tk = if ikind.byte_tokens() {
+        Tk::Byte
+    } else if ikind == IKind::Tree {
+        Tk::Tree
+    } else {
+        Tk::Char
+    };
     let grammar = parse_g(tk, &l[4])?;
-    let (input, spans) = if ikind.spanned_input() {
+    let mut tree = Vec::new();
+    let (input, spans) = if ikind == IKind::Tree {
+        tree = strees(&l[5])?;
+        let input = tree
+            .iter()
+            .map(|(t, _, _)| match t {
+                TTree::Leaf(c) => *c,
+                TTree::Group(id, _) => *id,
+            })
+            .collect();
+        (input, tree.iter().map(|&(_, s, e)| (s, e)).collect())
+    } else if ikind.spanned_input() {
         let mut input = Vec::new();
         let mut spans = Vec::new();
         for item in l[5].list()? {
@@ -279,7 +426,34 @@ pub fn parse_case(s: &Sexp) -> R<Case> {
     } else {
         (toks(tk, &l[5])?, Vec::new())
     };
-    Some(Case { id, ikind, ekind, mode, grammar, input, spans })
+    Some(Case { id, ikind, ekind, mode, grammar, input, spans, tree })
+}
+
+/// `(<tt> ...)` with `<tt>` := `(<t> <s> <e>)` | `((G <id> (<tt> ...)) <s> <e>)`
+fn strees(s: &Sexp) -> R<Vec<STree>> {
+    s.list()?.iter().map(stree).collect()
+}
+
+fn stree(s: &Sexp) -> R<STree> {
+    match s.list()? {
+        [t, st, en] => {
+            let t = match t {
+                Sexp::Atom(_) => TTree::Leaf(tok(Tk::Char, t)?),
+                Sexp::List(g) => match g.as_slice() {
+                    [h, id, children] if h.atom() == Some("G") => {
+                        let id = u32::try_from(id.nat()?).ok()?;
+                        if id < GROUP_ID_MIN {
+                            return None;
+                        }
+                        TTree::Group(id, strees(children)?)
+                    }
+                    _ => return None,
+                },
+            };
+            Some((t, nat(st)?, nat(en)?))
+        }
+        _ => None,
+    }
 }
 
 fn nat(s: &Sexp) -> R<usize> {
@@ -339,6 +513,7 @@ fn parse_fn1(s: &Sexp) -> R<Fn1> {
         ("FFst", []) => Fn1::Fst,
         ("FSnd", []) => Fn1::Snd,
         ("FDup", []) => Fn1::Dup,
+        ("FNew", []) => Fn1::New,
         _ => return None,
     })
 }
@@ -435,6 +610,7 @@ pub fn parse_g(tk: Tk, s: &Sexp) -> R<G> {
         ("DelimitedBy", [a, l, r]) => G::DelimitedBy(bg(a)?, bg(l)?, bg(r)?),
         ("PaddedBy", [a, p]) => G::PaddedBy(bg(a)?, bg(p)?),
         ("Group", [l]) => G::Group(gs(tk, l)?),
+        ("GroupArr", [l]) => G::GroupArr(gs(tk, l)?),
         ("Or", [a, b]) => G::Or(bg(a)?, bg(b)?),
         ("Choice", [l]) => G::Choice(gs(tk, l)?),
         ("ChoiceVec", [l]) => G::ChoiceVec(gs(tk, l)?),
@@ -473,6 +649,7 @@ pub fn parse_g(tk: Tk, s: &Sexp) -> R<G> {
             let ops = ops.list()?.iter().map(|o| parse_pop(tk, o)).collect::<R<Vec<_>>>()?;
             G::Pratt(form, bg(atom)?, ops)
         }
+        ("NestedIn", [a]) => G::NestedIn(bg(a)?),
         _ => return None,
     })
 }
@@ -497,4 +674,72 @@ pub fn parse_it(tk: Tk, s: &Sexp) -> R<IT> {
         ("IRepCfg", [a, lo, hi, ck]) => IT::IRepCfg(parse_g(tk, a)?, nat(lo)?, opt_nat(hi)?, nat(ck)?),
         _ => return None,
     })
+}
+
+// ---------- does a grammar contain `FNew` (drop accounting) ----------
+
+impl G {
+    /// Whether `FNew` occurs anywhere in the grammar.
+    pub fn has_fnew(&self) -> bool {
+        let new = |f: &Fn1| *f == Fn1::New;
+        match self {
+            G::End | G::Empty | G::Any | G::Just(_) | G::OneOf(_) | G::NoneOf(_) | G::Custom(..) => false,
+            G::JustCfg(_) | G::Var(_) => false,
+            G::Select(_, f) => new(f),
+            G::Map(f, a) | G::TryMap(_, f, _, a) | G::TryMapWith(_, f, _, a) | G::MapCtx(f, a) => {
+                new(f) || a.has_fnew()
+            }
+            G::MapWith(_, a)
+            | G::To(_, a)
+            | G::Ignored(a)
+            | G::ToSpan(a)
+            | G::ToSlice(a)
+            | G::Filter(_, a)
+            | G::Validate(_, _, a)
+            | G::OrNot(a)
+            | G::Not(a)
+            | G::Rewind(a)
+            | G::Labelled(_, _, a)
+            | G::MapErr(_, a)
+            | G::WithCtx(_, a)
+            | G::Memo(_, a)
+            | G::Rec(a)
+            | G::RecDecl(a)
+            | G::Boxed(a)
+            | G::NestedIn(a) => a.has_fnew(),
+            G::Then(a, b)
+            | G::IgnoreThen(a, b)
+            | G::ThenIgnore(a, b)
+            | G::PaddedBy(a, b)
+            | G::Or(a, b)
+            | G::AndIs(a, b)
+            | G::RecoverVia(a, b)
+            | G::IgnoreWithCtx(a, b)
+            | G::ThenWithCtx(a, b) => a.has_fnew() || b.has_fnew(),
+            G::DelimitedBy(a, b, c) | G::RecoverSkipRetry(a, b, c) | G::RecoverSkipUntil(a, b, c, _) => {
+                a.has_fnew() || b.has_fnew() || c.has_fnew()
+            }
+            G::Group(l) | G::GroupArr(l) | G::Choice(l) | G::ChoiceVec(l) => l.iter().any(G::has_fnew),
+            G::RepUnit(it) | G::Collect(_, it) | G::CollectExactly(_, it) => it.has_fnew(),
+            G::Foldl(a, it, _) | G::FoldlWith(a, it, _) => a.has_fnew() || it.has_fnew(),
+            G::Foldr(it, b, _) | G::FoldrWith(it, b, _) => it.has_fnew() || b.has_fnew(),
+            G::Pratt(_, atom, ops) => {
+                atom.has_fnew()
+                    || ops.iter().any(|o| match o {
+                        POp::Infix(_, _, g, _) | POp::Prefix(_, g, _) | POp::Postfix(_, g, _) => g.has_fnew(),
+                    })
+            }
+        }
+    }
+}
+
+impl IT {
+    pub fn has_fnew(&self) -> bool {
+        match self {
+            IT::IRep(a, ..) | IT::IOrNot(a) | IT::IRepCfg(a, ..) => a.has_fnew(),
+            IT::ISep(a, sep, ..) => a.has_fnew() || sep.has_fnew(),
+            IT::IEnum(i) | IT::IMapWith(_, i) => i.has_fnew(),
+            IT::IMap(f, i) => *f == Fn1::New || i.has_fnew(),
+        }
+    }
 }
